@@ -210,6 +210,17 @@ claim("C16", "exploration",
       "to fewer than the pool size.",
       "DESIGN.md §4 C16")
 
+claim("C17", "exploration",
+      "history fuzzing (Hypothesis) of real servers over real sockets: generated connect / call / graceful or abrupt leave "
+      "histories with server.close() at a generated point; oracle on what every connected client observes, disconnect "
+      "hooks, server tables and the process's open descriptors",
+      "Threaded, thread-pool, one-shot and forking servers run for real on TCP loopback and unix sockets. After close() "
+      "every connected client must see end-of-stream within a generous bound, hooks must have run once, a second close() "
+      "must be silent; at audit points the server's tables and /proc/self/fd must hold nothing for departed clients.",
+      "OS scheduling; liveness-type observations are re-confirmed in isolation; descriptor / table audits not for the "
+      "forking server (other process).",
+      "DESIGN.md §4 C17")
+
 NOT_YET = "check not built yet in this revision (see DESIGN.md §8 build order)"
 
 
